@@ -207,6 +207,12 @@ def run_job(job):
                 v["confirmed"] = True
             elif kind == "raises" and v["msg"].startswith("unexpected") and robs.split(":")[0] in v["msg"]:
                 v["confirmed"] = True
+            elif kind == "raises":
+                # the real function of a harness handles every exception the property allows itself; one that escapes it on the
+                # counterexample's inputs is the real code failing on an input it must accept (the model predicted a different
+                # symptom of the same defect, e.g. a malformed store where HDF5 refuses the write)
+                v["confirmed"] = True
+                v["msg"] += f"  [real stack on these inputs: {robs[:160]}]"
             elif kind == "timeout" and v["msg"].startswith("non-termination"):
                 v["confirmed"] = True   # the symbolic path did not return either: a genuine non-termination candidate
             else:
